@@ -63,8 +63,20 @@ THEOREMS = [
     "Spydr.Eblif.ports_never_shrink",
     "Spydr.Eblif.eblif_roundtrip_ports",
     "Spydr.Eblif.hdr_port_list",
+    "Spydr.Eblif.parse_composed_lines_bb",
+    "Spydr.Eblif.eblif_roundtrip_blackbox",
+    "Spydr.Eblif.blackbox_models_frame",
+    "Spydr.Eblif.parse_composed_lines_full",
+    "Spydr.Eblif.read_composed_full",
+    "Spydr.Eblif.parse_rendered_names",
+    "Spydr.Eblif.parse_rendered_latch",
+    "Spydr.Eblif.parse_rendered_conn",
+    "Spydr.Eblif.generated_names_distinct",
+    "Spydr.Eblif.names_generated_ports",
+    "Spydr.Eblif.names_info_std",
+    "Spydr.Eblif.latch_generated_ports",
 ]
-MODULES = ["Spydr.Eblif.Props.C18", "Spydr.Eblif.Props.C18RoundTrip", "Spydr.Eblif.Props.C18ReadOk", "Spydr.Eblif.Props.C18Ports"]
+MODULES = ["Spydr.Eblif.Props.C18", "Spydr.Eblif.Props.C18RoundTrip", "Spydr.Eblif.Props.C18ReadOk", "Spydr.Eblif.Props.C18Ports", "Spydr.Eblif.Props.C18BlackBox", "Spydr.Eblif.Props.C18FullParse", "Spydr.Eblif.Props.C18GenDefs"]
 
 FINDING = {
     "blackbox-ports": "eblif.blackbox-pins-keep-wire-of-removed-cable",
@@ -555,7 +567,7 @@ def run(ctx):
     ]
     ctx.partial_notes = [
         "the round trip is proved for the .subckt/.gate fragment (eblif_roundtrip_subckt_total: the second read provably succeeds "
-        "when written .cnames are pairwise different); .names/.latch instances, .conn lines, INOUT ports, written black-box blocks and port lists are covered "
+        "when written .cnames are pairwise different); .names/.latch instances, .conn lines and INOUT ports are covered "
         "by the correspondence check only (see docs/eblif.md)",
     ]
     if not ok:
